@@ -477,6 +477,9 @@ func generateProtectedHeaders(req *signature.SignRequest, protected cose.Protect
 
 	// extended attributes
 	for _, elm := range req.ExtendedSignedAttributes {
+		if !isValidLabel(elm.Key) {
+			return &signature.InvalidSignRequestError{Msg: fmt.Sprintf("extended attribute key %v: require int / tstr type, got '%T'", elm.Key, elm.Key)}
+		}
 		if _, ok := protected[elm.Key]; ok {
 			return &signature.InvalidSignRequestError{Msg: fmt.Sprintf("%q already exists in the protected header", elm.Key)}
 		}
@@ -634,6 +637,16 @@ func generateExtendedAttributes(extendedAttributeKeys []any, protected cose.Prot
 		})
 	}
 	return extendedAttr, nil
+}
+
+// isValidLabel checks if key is of a type that can be used as a COSE header
+// label, i.e. an integer or a text string.
+func isValidLabel(key any) bool {
+	switch key.(type) {
+	case int, int8, int16, int32, int64, uint, uint8, uint16, uint32, uint64, string:
+		return true
+	}
+	return false
 }
 
 // contains checks if e is in s
